@@ -20,6 +20,8 @@
 #define VP_MIN(T) VP_MIN_##T
 #define VP_LOWEST(T) VP_LOWEST_##T
 #define VP_INF(T) VP_INF_##T
+#define VP_IS_INTEGER(T) VP_IS_INTEGER_##T
+#define VP_IS_SIGNED(T) VP_IS_SIGNED_##T
 #define VP_MAX_int INT_MAX
 #define VP_MIN_int INT_MIN
 #define VP_MAX_unsigned UINT_MAX
